@@ -24,12 +24,13 @@ RULE = ('seeded configurations: sine-velocity trajectories sampled at 50..500 ms
         'off-grid epochs or 2-D mode (the tests use bias + white noise, on-grid epochs, statistical thresholds); distinct = distinct seeds'
         ' Round 3: every sample of every sensor in [first grid time, last input time) must be among the measurement blocks of the estimate (conservation), epochs of two receivers equal to 1 ulp but not bitwise.'
         ' Round 4: a third of the sensors report a full (correlated) covariance.'
-        ' Round 5: sensors listed in any order.')
+        ' Round 5: sensors listed in any order.'
+        ' Round 6: user-defined Measurement subclasses delivering ONE observation per sample (east speed, altimeter) mixed with the built-in sensors.')
 ASSUMPTIONS = ['the reference conditions the joint Gaussian in one shot (Cholesky of the full innovation covariance); agreement demanded to '
                '1e-5 of the reported standard deviation, times cond/1e9 beyond that conditioning (prototype agreement 1e-13; worst seen in calibration 2.3e-7 at cond 2.5e9); cases whose innovation covariance has cond > 1e10 are '
                'counted as ill-conditioned and not decided', 'measurement rows are attached to the grid row at or before their epoch, which is '
                'how the filter linearises them']
-REQUIRED_OBS = ['sensors_with_correlated_noise', 'samples_accounted', 'runs', 'grid_points', 'measurement_blocks', 'sd_compared', 'estimates_compared', 'trajectory_compared',
+REQUIRED_OBS = ['user_defined_scalar_sensors', 'sensors_with_correlated_noise', 'samples_accounted', 'runs', 'grid_points', 'measurement_blocks', 'sd_compared', 'estimates_compared', 'trajectory_compared',
                 'innovations_compared', 'midpoint_crosschecked', 'with_walk', 'with_scale_misal', 'two_d', 'off_grid_epochs']
 REQUIRED_CLASSES = {'all': ['3d', '2d']}
 LLA = ['lat', 'lon', 'alt']
@@ -40,9 +41,49 @@ DV = ['dv_x', 'dv_y', 'dv_z']
 TOL = 1e-5
 
 
+def user_sensors():
+    """User-defined measurements (the documented extension point `Measurement.compute_matrices`): ONE observation per sample - a shape none of the
+    built-in sensors ever delivers (3 rows, 2 in the no-altitude mode) - and a two-row sensor whose noise matrix is not diagonal."""
+    if 'user' in STATE:
+        return STATE['user']
+    from pyins import measurements
+
+    class EastSpeed(measurements.Measurement):
+        def __init__(self, data, sd):
+            super().__init__(data)
+            self.R = np.array([[sd ** 2]])
+
+        def compute_matrices(self, time, pva, error_model):
+            if time not in self.data.index:
+                return None
+            z = np.array([pva['VE'] - self.data.loc[time, 'VE']])
+            H = error_model.ned_velocity_error_jacobian(pva)[1:2]
+            return z, H, self.R
+
+    class Altimeter(measurements.Measurement):
+        def __init__(self, data, sd):
+            super().__init__(data)
+            self.R = np.array([[sd ** 2]])
+
+        def compute_matrices(self, time, pva, error_model):
+            if time not in self.data.index or not error_model.with_altitude:
+                return None
+            z = np.array([pva['alt'] - self.data.loc[time, 'alt']])
+            H = -error_model.position_error_jacobian(pva)[2:3]
+            return z, H, self.R
+    events.wrap_measurement_class(EastSpeed)
+    events.wrap_measurement_class(Altimeter)
+    STATE['user'] = (EastSpeed, Altimeter)
+    return STATE['user']
+
+
+STATE = {}
+
+
 def setup():
     patch.import_all()
     events.install()
+    user_sensors()
 
 
 def cases(seed, tier):
@@ -134,17 +175,31 @@ def build(seed, wa):
         else:
             sd = float(10 ** rng.uniform(-2, 0))
             sensors.append(measurements.BodyVelocity(sim.generate_body_velocity_measurements(ref, sd, ms), sd))
+    # Round 6: user-defined sensors delivering a single observation per sample (see user_sensors)
+    urng = np.random.Generator(np.random.PCG64(seed + 4242))
+    scalar = 0
+    EastSpeed, Altimeter = user_sensors()
+    for ucls in (EastSpeed, Altimeter):
+        if urng.random() < (0.35 if ucls is EastSpeed else 0.25 if wa else 0.0):
+            e = np.unique(np.r_[urng.choice(t[:-1], int(urng.integers(1, 6))), urng.uniform(t[0], t[-1] - dt, int(urng.integers(0, 4)))])
+            ref = transform.resample_state(traj, e)
+            sd = float(10 ** urng.uniform(-1.5, 0.5))
+            col = 'VE' if ucls is EastSpeed else 'alt'
+            data = pd.DataFrame({col: ref[col].values + sd * urng.standard_normal(len(e))}, index=ref.index)
+            sensors.append(ucls(data, sd))
+            off_grid += int((~np.isin(e, t)).sum())
+            scalar += 1
     if len(sensors) > 1 and rng.random() < 0.6:
         sensors = [sensors[i] for i in rng.permutation(len(sensors))]          # listed in any order
     # a receiver that reports a FULL covariance (correlated components), as a user-defined Measurement would: the estimator must be optimal for
     # any positive-definite R, not only sd^2 I
     correlated = 0
     for sn in sensors:
-        if rng.random() < 0.35:
+        if type(sn).__name__ in ('Position', 'NedVelocity', 'BodyVelocity') and rng.random() < 0.35:
             A_ = np.eye(3) + 0.6 * rng.uniform(-1, 1, (3, 3))
             sn.R = float(sn.R[0, 0]) * (A_ @ A_.T)
             correlated += 1
-    return dict(correlated=correlated, traj=traj, nominal=nominal, comp=comp, inc=inc if with_inc else None, gkw=gkw, akw=akw, sds=sds, sensors=sensors,
+    return dict(correlated=correlated, scalar=scalar, traj=traj, nominal=nominal, comp=comp, inc=inc if with_inc else None, gkw=gkw, akw=akw, sds=sds, sensors=sensors,
                 time_step=time_step, wa=wa, dt=dt, off_grid=off_grid,
                 describe=dict(dt=dt, time_step=time_step, rows=len(traj), with_increments=with_inc, nominal_is_computed=nominal is comp,
                               gyro={k: (None if v is None else np.asarray(v).tolist()) for k, v in gkw.items()},
@@ -346,5 +401,6 @@ def run_case(case):
     obs['with_scale_misal'] = int(g.scale_misal_modelled or a.scale_misal_modelled)
     obs['two_d'] = int(not wa)
     obs['sensors_with_correlated_noise'] = C['correlated']
+    obs['user_defined_scalar_sensors'] = C['scalar']
     obs['off_grid_epochs'] = C['off_grid']
     return dict(violations=out[:8], obs=obs, nontrivial=True, sample=dict(config=cfg, grid_points=K, states=n, measurement_blocks=len(meas), cond=cond))
